@@ -99,6 +99,7 @@ package op
 // ValidateRefreshTokenRequest accepted, with the presented refresh token handed on for rotation.
 //@ func op.RefreshTokenExchange
 //@   requires !Resp_written[w] && valid(r) && valid(exchanger) && valid(w)
+//@   requires supported: exchanger.GrantTypeRefreshTokenSupported()
 //@   modifies Resp_written[w], Resp_status[w], Resp_location[w], Resp_body[w]
 //@   unframed
 //@   ensures responded: Resp_written[w]
@@ -260,11 +261,13 @@ package op
 //@   ensures missing: ca.ClientAssertion == "" ==> err != nil
 //@   ensures verified: err == nil ==> callres("op.VerifyJWTAssertion", 1) == nil
 //@   ensures identity-is-issuer: err == nil ==> clientID == callres("op.VerifyJWTAssertion", 0).Issuer
+//@   defines authenticated: err == nil ==> authenticated(clientID)
 //@   ensures fail-closed: err != nil ==> clientID == ""
 
 // jwt-bearer grant (legacy handler): a 200 answer only after the assertion verified.
 //@ func op.JWTProfile
 //@   requires !Resp_written[w] && valid(r) && valid(exchanger) && valid(w)
+//@   requires supported: exchanger.GrantTypeJWTAuthorizationSupported()
 //@   modifies Resp_written[w], Resp_status[w], Resp_location[w], Resp_body[w]
 //@   unframed
 //@   ensures responded: Resp_written[w]
@@ -454,3 +457,103 @@ package op
 //@   ensures pkce-public: err == nil && r.Client.AuthMethod() == oidc.AuthMethodNone ==> callres("op.AuthRequestByCode", 0).GetCodeChallenge() != nil
 //@   ensures issued: err == nil ==> result0 != nil && tokensIssued(as(result0.Data, "*oidc.AccessTokenResponse"),
 //@        callres("op.AuthRequestByCode", 0), r.Client, r.Data.Code, "")
+
+// ---- C05: client authentication and registered grants ----
+
+//@ func op.ClientBasicAuth
+//@   requires valid(r) && valid(storage)
+//@   ensures authenticated: err == nil ==> authenticated(clientID)
+//@   ensures fail-closed: err != nil ==> clientID == ""
+
+// The boolean result reports authentication truthfully: true only after the storage's secret check
+// or a verified private_key_jwt assertion for exactly the returned client id.
+//@ func op.ClientIDFromRequest
+//@   requires valid(r) && valid(p)
+//@   ensures truthful: err == nil && authenticated ==> authenticated(clientID)
+//@   ensures fail-closed: err != nil ==> clientID == "" && !authenticated
+//@   ensures identified: err == nil ==> clientID != "" || authenticated
+
+// Introspection is answered only for an authenticated caller.
+//@ func op.ParseTokenIntrospectionRequest
+//@   requires valid(r) && valid(introspector)
+//@   ensures authenticated: err == nil ==> authenticated(clientID)
+//@   ensures fail-closed: err != nil ==> token == "" && clientID == ""
+
+//@ func op.Introspect
+//@   requires !Resp_written[w] && valid(r) && valid(introspector) && valid(w)
+//@   modifies Resp_written[w], Resp_status[w], Resp_location[w], Resp_body[w]
+//@   unframed
+//@   ensures responded: Resp_written[w]
+//@   ensures refused: callres("op.ParseTokenIntrospectionRequest", 2) != nil ==> Resp_status[w] == 401
+//@   ensures answered-only-authenticated: Resp_status[w] == 200 ==> callres("op.ParseTokenIntrospectionRequest", 2) == nil
+//@   ensures active-only-after-storage-ok: Resp_status[w] == 200 && callres("op.ParseTokenIntrospectionRequest", 2) == nil
+//@        && as(Resp_body[w], "*oidc.IntrospectionResponse") != nil && as(Resp_body[w], "*oidc.IntrospectionResponse").Active
+//@        ==> callres("op.OPStorage.SetIntrospectionFromToken", 0) == nil
+
+// Device authorization acts only for a storage-known client registered for the device grant.
+//@ func op.ParseDeviceCodeRequest
+//@   requires valid(r) && valid(o)
+//@   ensures fail-closed: err != nil ==> result0 == nil
+//@   ensures known-client-with-grant: err == nil ==> callres("op.OPStorage.GetClientByClientID", 1) == nil
+//@        && grantRegistered(callres("op.OPStorage.GetClientByClientID", 0), oidc.GrantTypeDeviceCode)
+//@        && result0 != nil && result0.ClientID == callres("op.OPStorage.GetClientByClientID", 0).GetID()
+
+// Server interface router: VerifyClient authenticates the client in the way it is registered.
+//@ func op.LegacyServer.VerifyClient
+//@   requires valid(s) && valid(s.provider) && valid(r) && valid(r.Data)
+//@   ensures fail-closed: err != nil && formValue(r.Form, "grant_type") != "client_credentials" ==> result0 == nil
+//@   ensures valid: err == nil ==> valid(result0)
+//@   ensures authenticated: err == nil ==> authenticated(result0.GetID()) || result0.AuthMethod() == oidc.AuthMethodNone
+//@   ensures method-assertion: err == nil && formValue(r.Form, "grant_type") != "client_credentials" && r.Data.ClientAssertionType == oidc.ClientAssertionTypeJWTAssertion
+//@        ==> result0.AuthMethod() == oidc.AuthMethodPrivateKeyJWT
+//@   ensures method-secret: err == nil && formValue(r.Form, "grant_type") != "client_credentials" && r.Data.ClientAssertionType != oidc.ClientAssertionTypeJWTAssertion
+//@        ==> result0.AuthMethod() != oidc.AuthMethodPrivateKeyJWT && result0.GetID() == r.Data.ClientID
+//@   ensures post-only-if-enabled: err == nil && formValue(r.Form, "grant_type") != "client_credentials" && r.Data.ClientAssertionType != oidc.ClientAssertionTypeJWTAssertion
+//@        && result0.AuthMethod() == oidc.AuthMethodPost ==> s.provider.AuthMethodPostSupported()
+
+//@ func op.LegacyServer.authenticateResourceClient
+//@   requires valid(s) && valid(s.provider) && valid(cc)
+//@   ensures authenticated: err == nil ==> authenticated(result0)
+//@   ensures fail-closed: err != nil ==> result0 == ""
+
+// The wrapped handler (dyn:handler, see specs) is reached only for a verified client with the
+// requested grant registered; every other outcome is an error response.
+//@ func op.webServer.withClient$1
+//@   requires !Resp_written[w] && valid(w) && valid(r) && valid(s)
+
+// Legacy token endpoint: a grant handler is dispatched only when the provider supports that grant.
+//@ func op.Exchange
+//@   requires !Resp_written[w] && valid(r) && valid(exchanger) && valid(w)
+//@   modifies Resp_written[w], Resp_status[w], Resp_location[w], Resp_body[w]
+//@   unframed
+//@   ensures responded: Resp_written[w]
+
+//@ func op.TokenExchange
+//@   requires !Resp_written[w] && valid(r) && valid(exchanger) && valid(w)
+//@   requires supported: exchanger.GrantTypeTokenExchangeSupported()
+//@   modifies Resp_written[w], Resp_status[w], Resp_location[w], Resp_body[w]
+//@   unframed
+//@   ensures responded: Resp_written[w]
+//@ func op.ClientCredentialsExchange
+//@   requires !Resp_written[w] && valid(r) && valid(exchanger) && valid(w)
+//@   requires supported: exchanger.GrantTypeClientCredentialsSupported()
+//@   modifies Resp_written[w], Resp_status[w], Resp_location[w], Resp_body[w]
+//@   unframed
+//@   ensures responded: Resp_written[w]
+//@ func op.DeviceAccessToken
+//@   requires !Resp_written[w] && valid(r) && valid(exchanger) && valid(w)
+//@   requires supported: exchanger.GrantTypeDeviceCodeSupported()
+//@   modifies Resp_written[w], Resp_status[w], Resp_location[w], Resp_body[w]
+//@   unframed
+//@   ensures responded: Resp_written[w]
+
+// Token exchange (legacy router): client authentication and the registered-grant check.
+//@ func op.AuthorizeTokenExchangeClient
+//@   requires valid(exchanger)
+//@   ensures fail-closed: err != nil ==> client == nil
+//@   ensures authenticated: err == nil ==> valid(client) && authenticated(clientID) && client.GetID() == clientID
+//@ func op.ValidateTokenExchangeRequest
+//@   requires valid(oidcTokenExchangeRequest) && valid(exchanger)
+//@   ensures fail-closed: err != nil ==> result0 == nil && result1 == nil
+//@   ensures authenticated: err == nil ==> valid(result1) && authenticated(result1.GetID())
+//@   ensures grant-registered: err == nil ==> grantRegistered(result1, oidc.GrantTypeTokenExchange)
